@@ -10,6 +10,7 @@ import (
 	"math/big"
 	"sort"
 	"strings"
+	"sync/atomic"
 )
 
 type Sort string
@@ -60,6 +61,8 @@ type Term struct {
 	Args  []*Term
 	Bound []*Term // bound variables for quantifiers
 	Pats  [][]*Term
+
+	str atomic.Pointer[string] // cached String(); terms are immutable once built
 }
 
 var (
@@ -407,13 +410,22 @@ func quoteName(n string) string {
 	if ok && n != "" && !(n[0] >= '0' && n[0] <= '9') {
 		return "v_" + n // prefix keeps clear of reserved words
 	}
-	return "|v_" + strings.NewReplacer("|", "!", "\\", "!").Replace(n) + "|"
+	return "|v_" + nameReplacer.Replace(n) + "|"
 }
 
+var nameReplacer = strings.NewReplacer("|", "!", "\\", "!")
+
 func (t *Term) String() string {
+	if p := t.str.Load(); p != nil {
+		return *p
+	}
 	var sb strings.Builder
 	t.write(&sb)
-	return sb.String()
+	r := sb.String()
+	if t.Op != "var" && t.Op != "int" && t.Op != "bool" {
+		t.str.Store(&r)
+	}
+	return r
 }
 
 func (t *Term) write(sb *strings.Builder) {
